@@ -687,9 +687,13 @@ class BaseProxy(_BaseProxy_):
     #   - use shortcut if this is running inside the server process
     #   - do not use `self._manager`, hence the finalizer does not take `state`
     #   - the finalizer takes `server`
-    def _incref(self):
+    def _incref(self, adopt=False):
+        # With `adopt`, this proxy takes over a reference that was added on its behalf
+        # (by `__reduce__`): it does not add one, but gets the finalizer that gives it back.
         server = self._server
-        if server:
+        if adopt:
+            pass
+        elif server:
             server.incref(None, self._token.id)
         else:
             self._dispatch('incref')
@@ -792,6 +796,10 @@ def RebuildProxy(func, token, serializer, kwds):
             server.decref(None, token.id)
         else:
             obj._dispatch('decref')
+    elif getattr(current_process(), '_inheriting', False):
+        # The proxy was created without `incref` because this process is being bootstrapped.
+        # It takes over the reference added by `__reduce__` in the sending process.
+        obj._incref(adopt=True)
 
     return obj
 
